@@ -217,7 +217,7 @@ NetPositive(objs, ns, svcs) ==
 Workload(o) == o.kind \in {"netpol", "deployment", "service", "ingress"}
 
 BadPlacement(objs, ns) ==
-  {<<o.kind, "name">> : o \in {x \in objs : x.kind = "namespace" /\ x.name # ns}}
+  {<<o.kind, "name">> : o \in {x \in objs : x.kind = "namespace" /\ x.name \notin {ns, ProviderNS}}}
   \cup {<<o.kind, "applied-in">> : o \in {x \in objs : Workload(x) /\ x.ans # ns}}
   \cup {<<o.kind, "metadata.namespace">> : o \in {x \in objs : Workload(x) /\ x.mns \notin {"", ns}}}
 InNamespace(objs, ns) == BadPlacement(objs, ns) = {}
@@ -257,6 +257,8 @@ LeaseLabels(ns, l) == BaseLabels(ns) \cup {<<LOwner, l.owner>>, <<LDSeq, ToStrin
                                            <<LOSeq, ToString(l.oseq)>>, <<LProv, l.provider>>}
 SvcLabels(ns, name) == BaseLabels(ns) \cup {<<LSvc, name>>}
 
+\* prepareEnvironment (apply.go): the provider's own namespace exists before any Deploy
+ProviderNamespaceObj == [kind |-> "namespace", ans |-> "", name |-> ProviderNS, mns |-> "", labels |-> {<<LManaged, "true">>}]
 NamespaceObj(ns, l) == [kind |-> "namespace", ans |-> "", name |-> ns, mns |-> "", labels |-> LeaseLabels(ns, l)]
 ManifestObj(ns, l)  == [kind |-> "manifest", ans |-> ProviderNS, name |-> ns, mns |-> "", labels |-> LeaseLabels(ns, l)]
 
@@ -399,13 +401,14 @@ RunRound(cluster, ns, l, r) == RunSteps(cluster, ns, l, r, RoundSteps(r))
 VARIABLES cur, rnd, todo, cluster
 vars == <<cur, rnd, todo, cluster>>
 
-\* the abstract namespace name of a lease: injective by construction; the real one (sha224/base32 of the lease
-\* path) is bound and checked for injectivity and DNS-1123 validity in KubePolicyTrace
-NS(l) == ToString(<<l.owner, l.dseq, l.gseq, l.oseq, l.provider>>)
+\* the namespace name of a lease is carried by the lease record: in the model universe it is an abstract name,
+\* injective by construction (MC_KubePolicy); the real one (sha224/base32 of the lease path) is bound, and checked
+\* for injectivity and DNS-1123 validity, in KubePolicyTrace
+NS(l) == l.ns
 
 Init == /\ cur \in Inputs
         /\ rnd = 1
-        /\ cluster = {}
+        /\ cluster = {ProviderNamespaceObj}
         /\ todo = RoundSteps(cur.rounds[1])
 
 DoStep == /\ todo # <<>>
@@ -427,7 +430,7 @@ SvcsSoFar == Flatten([k \in 1..rnd |-> cur.rounds[k].svcs])
 NetpolSettled == cur.rounds[rnd].st.netpol /\ \A i \in DOMAIN todo : todo[i].t # "netpol"
 Done == todo = <<>> /\ rnd = Len(cur.rounds)
 
-TypeOK == rnd \in 1..Len(cur.rounds) /\ \A o \in cluster : o.kind \in {"namespace", "manifest", "netpol", "deployment", "service", "ingress"}
+TypeOK == rnd \in 1..Len(cur.rounds) /\ ProviderNamespaceObj \in cluster /\ \A o \in cluster : o.kind \in {"namespace", "manifest", "netpol", "deployment", "service", "ingress"}
 InvPlacement == InNamespace(cluster, NS(cur.lease))
 InvSandbox   == Sandboxed(cluster)
 InvLimits    == LimitsLeased(cluster, SvcSets)
